@@ -278,6 +278,8 @@ type Inst struct {
 	mu      sync.Mutex
 	cond    *sync.Cond
 	defs    *schema.Definitions
+	watched bool
+	foreign bool
 	log     []Ev
 	pending map[string][]bpmn.TaskTrace
 	ntask   map[string]int
@@ -305,13 +307,16 @@ type InstOpt struct {
 	Raw     func(tracing.ITrace)
 	NoStart bool
 	Buf     int
+	// ForeignTracer: the instance runs on a tracer or context that the scenario owns (the instance's cancellation does
+	// not end it): the shutdown watch of Close does not apply
+	ForeignTracer bool
 }
 
 // StartInst parses nothing: takes parsed definitions, creates a process instance with a subscriber
 // attached BEFORE start, and starts all start events.
 func StartInst(defs *schema.Definitions, o InstOpt) (*Inst, error) {
 	ctx, cancel := context.WithCancel(context.Background())
-	in := &Inst{Ctx: ctx, Cancel: cancel, pending: map[string][]bpmn.TaskTrace{}, ntask: map[string]int{}, raw: o.Raw, defs: defs}
+	in := &Inst{Ctx: ctx, Cancel: cancel, pending: map[string][]bpmn.TaskTrace{}, ntask: map[string]int{}, raw: o.Raw, defs: defs, foreign: o.ForeignTracer}
 	in.cond = sync.NewCond(&in.mu)
 	opts := []bpmn.Option{bpmn.WithContext(ctx), bpmn.WithIdGenerator(sharedGen)}
 	if o.Vars != nil {
@@ -516,11 +521,37 @@ func (in *Inst) WaitCease(timeout time.Duration) bool {
 	return in.WaitUntil(timeout, func(l []Ev) bool { return countEv(l, "cease", "*") > 0 })
 }
 
+var closeWatch sync.WaitGroup
+
 func (in *Inst) Close() {
 	in.Cancel()
 	if in.defs != nil {
 		checkDefsUntouched(in.defs)
 	}
+	// after the cancellation the instance's tracer must come to its end (every sender released, every node gone)
+	if in.P != nil && !in.watched && !in.foreign {
+		in.watched = true
+		tr := in.P.Tracer()
+		desc := in.describe()
+		closeWatch.Add(1)
+		go func() {
+			defer closeWatch.Done()
+			select {
+			case <-tr.Done():
+			case <-time.After(3 * time.Second):
+				sharedFinding("shutdown", desc, "3 s after the instance was cancelled its tracer has not terminated (a sender was never released or a goroutine of the instance is stuck)")
+			}
+		}()
+	}
+}
+
+// describe: what identifies the instance in a finding (the head of its log)
+func (in *Inst) describe() string {
+	l := in.Log()
+	if len(l) > 40 {
+		l = l[:40]
+	}
+	return "instance with log " + logString(l)
 }
 
 func (in *Inst) Signal(name string) (event.ConsumptionResult, error) {
